@@ -26,28 +26,7 @@ ASSUMPTIONS = ["the only ground truth outside the code available offline is the 
 PIN_FILE = os.path.join(os.path.dirname(os.path.abspath(__file__)), "capture.sha256")
 
 
-TZS = ["UTC0", "CET-1CEST,M3.5.0,M10.5.0/3", "NST3:30NDT,M3.2.0,M11.1.0", "NZST-12NZDT,M9.5.0,M4.1.0/3"]
-
-
-class local_tz:
-    """the on-disk dates are epoch seconds whatever the process's time zone; run a step under a POSIX TZ rule"""
-
-    def __init__(self, tz):
-        self.tz = tz
-
-    def __enter__(self):
-        import time
-        self.old = os.environ.get("TZ")
-        os.environ["TZ"] = self.tz
-        time.tzset()
-
-    def __exit__(self, *a):
-        import time
-        if self.old is None:
-            os.environ.pop("TZ", None)
-        else:
-            os.environ["TZ"] = self.old
-        time.tzset()
+from container import TZS, local_tz  # noqa: E402,F401
 
 
 def entries_and_headers(ctx, tz="UTC0", share=1):
